@@ -6,6 +6,7 @@ package main
 // (mod 2^N), so Go semantics are exact and no Int<->BitVec bridge is needed.
 
 import (
+	"sort"
 	"strconv"
 	"runtime"
 	"bytes"
@@ -435,10 +436,15 @@ func (c *Ctx) StrLit(s string) Term {
 	t := c.Fresh("strlit", SStr)
 	c.Assume(Eq(app(SInt, "strlen", t), IntLit(int64(len(s)))))
 	// distinct from earlier literals with different text
-	for o, ot := range c.strLits {
+	var others []string
+	for o := range c.strLits {
 		if o != s {
-			c.Assume(Ne(t, ot))
+			others = append(others, o)
 		}
+	}
+	sort.Strings(others) // deterministic script text
+	for _, o := range others {
+		c.Assume(Ne(t, c.strLits[o]))
 	}
 	if len(s) <= 8 {
 		for i := 0; i < len(s); i++ {
